@@ -372,6 +372,21 @@ def nd_from_value(interp, x, dt):
         if dt.fields is not None:
             if items is not None and len(items) == 0:
                 return VNd((0,), dt, None, {nm: VNd((0,) + f.subshape, VDType(f.kind), lambda *i: z3.IntVal(0)) for nm, f in dt.fields})
+            # a sequence of TUPLES, one value per scalar field: one record each (numpy treats a tuple as a record and a
+            # list as a sequence -- only tuples are modelled)
+            probe = items[0] if items else elem(z3.Int("probe!rec"))
+            if isinstance(probe, tuple) and len(probe) == len(dt.fields) and all(not f.subshape for _, f in dt.fields) and (items is None or all(isinstance(y, tuple) and len(y) == len(dt.fields) for y in items)):
+                n = z3.simplify(zint(hi) - zint(lo)) if not (isinstance(hi, int) and isinstance(lo, int)) else hi - lo
+                fields = {}
+                for pos, (nm, f) in enumerate(dt.fields):
+                    def getf(j, pos=pos, f=f):
+                        t = elem(zint(lo) + j) if items is None else (items[conc(j)] if conc(j) is not None else None)
+                        if t is None:
+                            return Seq.of([scalar_word(interp, y[pos], f.kind) for y in items]).get(j)
+                        return scalar_word(interp, t[pos], f.kind)
+                    fields[nm] = VNd((n,), VDType(f.kind), getf)
+                ctx.epoch += 1
+                return VNd((n,), dt, None, fields, epoch=ctx.epoch)
             raise OutOfReach("np.array of records")
         n = z3.simplify(zint(hi) - zint(lo)) if not (isinstance(hi, int) and isinstance(lo, int)) else hi - lo
 
